@@ -378,16 +378,26 @@ func c17Serialiser(c *Ctx, F *ssa.Function) {
 				c.Check(ok, "O2", key+":"+ch.name, p.InstrPos(w.call), "write dominated by a passed "+ch.name+" test of the same value",
 					"the value can reach the buffer without passing the "+ch.name+" test: "+path)
 			}
-			// CR: protect off, or CR test passed
-			pass := PassEdges(F, func(cond ssa.Value) (bool, bool) { return charCheck(cond, V, "\r") })
-			nCR := len(pass)
-			if protect != nil {
-				pass = append(pass, PassEdges(F, func(cond ssa.Value) (bool, bool) {
-					if cond == ssa.Value(protect) {
-						return false, true
+			// CR: protect off, or CR test passed (one matcher for both, so that `protect && contains(v, CR)`
+			// evaluated as a value is understood: it is false because protection is off or because the test passed)
+			pass := PassEdges(F, func(cond ssa.Value) (bool, bool) {
+				if pw, ok := charCheck(cond, V, "\r"); ok {
+					return pw, true
+				}
+				if protect != nil && cond == ssa.Value(protect) {
+					return false, true
+				}
+				return false, false
+			})
+			nCR := 0
+			for _, b := range F.Blocks {
+				for _, in := range b.Instrs {
+					if v, ok := in.(ssa.Value); ok {
+						if _, ok := charCheck(v, V, "\r"); ok {
+							nCR++
+						}
 					}
-					return false, false
-				})...)
+				}
 			}
 			if nCR == 0 {
 				c.Bad("O2", key+":CR", p.InstrPos(w.call), "no recognised CR test on the written value exists in the serialiser")
@@ -439,23 +449,34 @@ func c17Serialiser(c *Ctx, F *ssa.Function) {
 			// fail target (cutting the loop back into the check block) carry a non-nil error, and
 			// no buffer write is reachable.
 			key := fmt.Sprintf("%s:fail-edge(%q)@b%d", fname, ch, b.Index)
-			reach := ReachBlocks(failEdge.To(), nil, nil)
 			bad := ""
-			for rb := range reach {
-				if r, ok := lastInstr(rb).(*ssa.Return); ok {
-					if len(r.Results) < 2 || IsNilConst(r.Results[len(r.Results)-1]) {
+			isWrite := map[ssa.Instruction]bool{}
+			for _, w := range writes {
+				isWrite[w.call] = true
+			}
+			// every feasible continuation of the failing edge (an error value just built is not nil: paths.go)
+			ExploreX(failEdge.To(), nil, nil, nil, nil, nil, func(in ssa.Instruction, st PState) bool {
+				if r, ok := in.(*ssa.Return); ok {
+					if len(r.Results) < 2 {
+						bad = "a return reachable after a failed test carries no error at " + p.InstrPos(r)
+						return false
+					}
+					ev := Base(r.Results[len(r.Results)-1], st)
+					if c0, isC := EvalConst(ev, st); isC && c0.Value == nil || IsNilConst(ev) {
 						bad = "a return reachable after a failed test carries a nil error at " + p.InstrPos(r)
 					}
-					if len(r.Results) >= 1 && !IsNilConst(r.Results[0]) {
+					bv := Base(r.Results[0], st)
+					if c0, isC := EvalConst(bv, st); !(isC && c0.Value == nil) && !IsNilConst(bv) {
 						bad = "a return reachable after a failed test still hands out the buffer at " + p.InstrPos(r)
 					}
+					return false
 				}
-				for _, w := range writes {
-					if w.call.Block() == rb {
-						bad = "a buffer write is reachable after a failed test (" + p.InstrPos(w.call) + ")"
-					}
+				if isWrite[in] {
+					bad = "a buffer write is reachable after a failed test (" + p.InstrPos(in) + ")"
+					return false
 				}
-			}
+				return true
+			})
 			c.Check(bad == "", "O3", key, p.InstrPos(ifi), "failed test leads only to (nil, error) returns", bad)
 		}
 	}
@@ -588,7 +609,7 @@ func c17Caller(c *Ctx, ser *ssa.Function, spawns []*ssa.Call) {
 							continue
 						}
 						ok, path := Guarded(call.Block(), s, pass, nil)
-						c.Check(ok && len(pass) > 0, "O3", key, p.InstrPos(s), "command is started only after the serialiser's error was tested nil",
+						c.Check(ok && nonVacuous(pass), "O3", key, p.InstrPos(s), "command is started only after the serialiser's error was tested nil",
 							"the command can be started although the serialiser refused the input: "+path)
 					}
 				}
